@@ -27,20 +27,36 @@ MANIFEST_ENTRY = {
             "sqrt(I+eps)-sqrt(I) residual; losses are non-negative and vanish only where masked predictions equal the targets; "
             "pure-phase objects give mean pattern intensity = total probe intensity; padded object shapes are multiples of 8; the "
             "pipeline equals the specification only for scan positions inside the object box (counterexample theorem + known finding). "
+            "State carried between public calls is modelled as three state machines over histories that contain REFUSED (raising) calls "
+            "(Model/ForwardState.lean): slice-thickness setter (None / scalar / sequence, both entry points) -> propagator cache, pattern "
+            "stacks -> targets (_set_targets, preprocess, stack setters), scan-position setter -> clip -> cached patch indices. Proved for "
+            "all histories: a refused call changes nothing; the thickness list stays one positive entry per gap; the last ACCEPTED "
+            "assignment wins and refused ones leave no trace; the next rebuild yields the specification's Fresnel kernels of those "
+            "thicknesses; the per-slice setter accepts exactly the admissible lists; targets after re-preprocessing + reconstruct are the "
+            "stack of the LAST preprocessing the loss type selects; the index cache is never stale after dset.forward; nearest pixel + "
+            "sub-pixel shift decompose every position (|shift| <= 1/2) and exact ties go to the even neighbour. "
             "Every run executes the specification at Float in the Lean driver to simulate 4D-STEM data, feeds them to the real "
             "preprocess/from_models pipeline, compares every intermediate observable with the model and evaluates the property "
-            "predicate (loss zero at the truth, strictly larger at perturbations) on the real code for all loss types / batch sizes.",
+            "predicate (loss zero at the truth, strictly larger at perturbations) on the real code for all loss types / batch sizes, "
+            "also after histories of reconstruct() calls, through alternative entry points, after histories containing refused calls "
+            "(against an untouched twin), after re-preprocessing one dataset object, and at exact tie / integer scan positions; the three "
+            "state machines are compared with the real objects call by call (exact); public signatures / defaults are pinned.",
     "note": "Partial by nature (DESIGN §7): the theorems are convention algebra over the reals; float32/complex64 accuracy of the "
             "library, strict increase under perturbation and stationarity are measured, not proved. The `constant` clause is decided "
             "only where the fitted constant recovers the true centre (point-symmetric problems; odd ROI exact, even ROI limited by "
             "intensity on the Nyquist row/column) — other cases are counted as not applicable and reported. Object / probe hard "
             "constraints (global phase, Gram-Schmidt) belong to C10: the model takes the constrained arrays the library reports. "
-            "Scan rotation / transposition: positions modelled and compared, predicate evaluated; the rotated object shape is read back.",
+            "Scan rotation / transposition: positions modelled and compared, predicate evaluated; the rotated object shape is read back. "
+            "The state-machine theorems are about the model: that the real setters validate BEFORE they store (so that a refused call changes "
+            "nothing) is tied by the call-by-call correspondence and by the twin predicate, not proved of the Python code. NaN thicknesses "
+            "pass the library's `<= 0` check (modelled as such, not generated); numpy scalars as thickness raise TypeError (not generated).",
     "technique": "Lean 4 proof (list permutation algebra of fftshift/ifftshift/roll, induction on slices, reuse of the C16 spectral "
                  "lemmas) + model-vs-implementation correspondence with the specification executed as the reference simulator",
 }
 RULE = ("a case is one generated ptychography configuration pushed through simulate → real preprocess → real forward pipeline → "
-        "all loss types × batch sizes × (truth + 5 perturbations) + two histories of 2-4 reconstruct() calls on the same object; evaluations count every real loss evaluation and every compared "
+        "all loss types × batch sizes × (truth + 5 perturbations) + two histories of 2-4 reconstruct() calls on the same object + two alternative-entry-point "
+        "set-ups + one history with refused calls + one re-preprocessing history (each against an untouched twin) + three state-machine histories "
+        "(thickness setter, targets, scan positions) compared call by call with the Lean model; evaluations count every real loss evaluation and every compared "
         "observable; distinct non-trivial = distinct (row parity, col parity, square?, obj type, #slices, #modes, com fit, padded?, "
         "dyadic step?) signature with at least 9 scan positions")
 TRUSTED = ["torch.fft / numpy.fft compute the defining DFT sums; torch advanced indexing, round-half-even of torch.round/np.round (modelled, sampled)",
@@ -79,6 +95,23 @@ ASSUMPTIONS = [
     "rotation/transpose, padding/shape, positions, mean intensity, centred targets, descan shifts, propagators, predictions must equal the "
     "primary route (exactly, 1e-5 where the looped COM feeds a `constant` fit) and the loss at the truth must be zero there too; "
     "padded_diffraction_intensities_shape is not exercised (Dataset.pad keyword defect noted in DESIGN §8 #23, outside the quantifier)",
+    "refused calls: per configuration one Ptychography object (own dataset) at the ground truth receives 2-3 rounds of 1-3 public calls with an "
+    "invalid argument drawn from a menu of 30 (slice thicknesses through ptycho / obj_model in list / tuple / ndarray / tensor / scalar / None "
+    "form with non-positive entries, 0.0, -0.0, wrong length, empty; probe, scan positions, detector mask, descan shifts, centred stacks of a "
+    "wrong shape; non-positive mean intensity / batch size; out-of-range val_ratio; unknown constraints / object type / loss type / device / fit "
+    "function; malformed padding), each followed by a valid call that rebuilds derived state (none / reset_recon / preprocess / to / "
+    "compute_propagator_arrays) and a real reconstruct(); a call that is NOT refused on the tree under test ends the history (nothing to "
+    "compare); predicate: every batch loss equals the untouched twin's and is zero at the truth",
+    "re-preprocessing: one raw dataset object is preprocessed with OTHER settings first (fit function, bilinear, rotation, transposition, "
+    "padding, looped COM), optionally a preprocess that raises, then with the configuration's settings; Ptychography.preprocess is likewise "
+    "run with another padding first in 60 % of the cases; then real reconstruct() calls for the four loss types (amplitude first in half of "
+    "the cases); predicate as above against a dataset preprocessed once",
+    "tie positions: every 8th configuration scans with a step of exactly 0.5 / 1.5 / 2.5 object pixels (>= 4 rows, plain raster, used padding "
+    ">= 2) so that exact x.5 positions with even AND odd integer part occur (checked per case); the reference rounds ties to even like the "
+    "library (a convention the two share; a band-limited probe does not make the two neighbouring windows equivalent)",
+    "state machines: thickness histories run on the geometry object (dummy data), target histories on the re-preprocessed dataset "
+    "(stacks identified by content), position histories through the public scan_positions_px setter with exact k/8 values; "
+    "`_set_targets` is reached through the public reconstruct(num_iters=0, loss_type=...)",
     "strict increase is measured at random perturbations only (not a theorem: it depends on the perturbation not being a symmetry); "
     "stationarity / autograd gradients are not evaluated",
 ]
@@ -453,8 +486,17 @@ def rejected_call_stream(ctx, case, cfg, pd, data, truth, twin, mask, mean_I, pi
     rounds = rng.randint(2, 3)
     hist = []
     for k in range(rounds):
-        # 1-3 rejected calls; the multislice thickness setter is drawn in every history of a multislice model
-        rej = [rng.choice(dz_items)] if (k == 0 and S >= 2) else []
+        # 1-3 rejected calls.  Deterministic part (coverage must not depend on the seed): every history of a multislice model starts
+        # with a refused thickness assignment in the form that reaches the per-slice branch (>= 3 slices: correct length, one
+        # non-positive entry) or the scalar branch (2 slices), and its second round with the other form / any thickness item
+        per_slice = [m for m in dz_items if m["name"] == "dz:per-slice-nonpositive"]
+        scalar = [m for m in dz_items if m["name"] == "dz:scalar-nonpositive"]
+        if k == 0 and S >= 2:
+            rej = [rng.choice(per_slice if S >= 3 else scalar)]
+        elif k == 1 and S >= 2:
+            rej = [rng.choice(scalar if S >= 3 else dz_items)]
+        else:
+            rej = []
         rej += [rng.choice(menu) for _ in range(rng.randint(0 if rej else 1, 2))]
         rej = rng.shuffle(rej)
         aborted = False
@@ -530,6 +572,25 @@ def repreprocess_stream(ctx, case, cfg, pd, data, truth, twin, mask, mean_I, pix
         hcase = {**case, "repreprocess": plan, "loss_order": lts, "call": k}
         twin_compare(ctx, "repreprocess-history", hcase, recs, twin, pd, data, mask, mean_I, pix, lt, bsize, applicable, clipped, key,
                      f"preprocess({A['com_fit_function']}, ...) -> preprocess({cfg['com']}, ...) on one dataset object")
+    if rng.chance(0.6):
+        # configure, run, RE-configure, run again: the dataset is re-preprocessed AFTER reconstruct() calls were made on the object
+        # (other settings, then the configuration's), Ptychography.preprocess re-derives positions / indices / object for the padding
+        # in use, and reconstruct() is called again — first with the loss type of the last call (no change of the loss family)
+        A2 = {"com_fit_function": rng.choice(fits), "bilinear": rng.chance(0.3)}
+        ctx.dist["repreprocess.after-reconstruct"] += 1
+        cp.dataset_preprocess(d, cfg, **A2)
+        cp.dataset_preprocess(d, cfg)
+        with warnings.catch_warnings():
+            warnings.simplefilter("ignore")
+            q.preprocess(obj_padding_px=tuple(cfg["pad"]), plot_rotation=False, plot_com=False)
+        cp.install_truth(q, cfg, *truth)
+        for k, lt in enumerate([lts[-1], rng.choice(list(cp.LOSS_TYPES))]):
+            bsize = rng.choice([n, rng.randint(2, max(2, n - 1))])
+            recs = cp.reconstruct_call(q, cfg, truth, lt, bsize, False, rng.chance(0.8), rng.chance(0.5))
+            hcase = {**case, "repreprocess": plan, "loss_order": lts, "again": {"first": A2, "call": k, "loss_type": lt}}
+            twin_compare(ctx, "repreprocess-history", hcase, recs, twin, pd, data, mask, mean_I, pix, lt, bsize, applicable, clipped, key,
+                         f"reconstruct() calls -> preprocess({A2['com_fit_function']}, ...) -> preprocess({cfg['com']}, ...) on the same dataset object")
+    return d, q
 
 
 def amplitude_residual(lt, I, mask, b, n, mean_I):
@@ -541,6 +602,246 @@ def amplitude_residual(lt, I, mask, b, n, mean_I):
     d = (np.sqrt(I + 1e-9) - np.sqrt(I)) * mask
     e = np.sum(np.abs(d)) if "l1" in lt else np.sum(d ** 2)
     return float(e / (b / n) / mean_I)
+
+
+# ----------------------------------------------------------------------------- state machines (Model/ForwardState.lean)
+def _exc_name(f):
+    import warnings
+    try:
+        with warnings.catch_warnings():
+            warnings.simplefilter("ignore")
+            f()
+        return None
+    except Exception as e:   # noqa: BLE001
+        return type(e).__name__
+
+
+def thickness_history_stream(ctx, drv, case, cfg, p0, samp_lib, rng):
+    """slice-thickness setter + propagator cache as a state machine: a history of assignments through both entry points
+    (ptycho.slice_thicknesses / obj_model.slice_thicknesses) in every input form (None, scalar float / int, list, tuple,
+    ndarray, tensor; valid, non-positive entries incl. 0.0 / -0.0, wrong lengths, empty) and of valid calls that rebuild the
+    propagators; after EVERY call: raised?, the stored thicknesses (exact) and the propagators (5e-4) vs the Lean model."""
+    import torch
+    S = cfg["slices"]
+    r0, r1 = cfg["roi"]
+    d8 = lambda: rng.randint(4, 160) / 8.0
+    bad = lambda: rng.choice([0.0, -0.0, -d8(), 0, -3])
+    ops, real = [], []
+    for _ in range(rng.randint(5, 8)):
+        kind = rng.weighted([("ptycho", 5), ("obj", 3), ("rebuild", 3)])
+        if kind == "rebuild":
+            how = rng.choice(["compute_propagator_arrays", "reset_recon", "preprocess", "reconstruct0"])
+            ops.append({"kind": "rebuild"})
+            real.append(("rebuild", how, None))
+            continue
+        what = rng.weighted([("valid-seq", 3), ("valid-scalar", 2), ("nonpositive-seq", 3), ("nonpositive-scalar", 2), ("wrong-length", 2),
+                             ("len1-seq", 1), ("none", 1), ("empty", 1)])
+        if what == "valid-seq":
+            v, form = [d8() for _ in range(max(S - 1, 0))], "seq"
+        elif what == "valid-scalar":
+            v, form = rng.choice([d8(), rng.randint(1, 20)]), "scalar"
+        elif what == "nonpositive-seq":
+            v, form = [d8() for _ in range(max(S - 1, 2))], "seq"
+            v[rng.below(len(v))] = float(bad())
+        elif what == "nonpositive-scalar":
+            v, form = bad(), "scalar"
+        elif what == "wrong-length":
+            v, form = [d8() for _ in range(rng.choice([max(S - 2, 2) if S != 4 else 2, S, S + 1, S + 2]))], "seq"
+            if len(v) == S - 1:
+                v.append(d8())
+        elif what == "len1-seq":
+            v, form = [rng.choice([d8(), float(bad())])], "seq"
+        elif what == "none":
+            v, form = None, "none"
+        else:
+            v, form = [], "seq"
+        container = rng.choice(["list", "tuple", "ndarray", "tensor"]) if form == "seq" else "python"
+        if form == "seq" and len(v) == 0:
+            container = rng.choice(["list", "tuple"])
+        ctx.dist[f"thickness.{what}[{container}]"] += 1
+        ops.append({"kind": kind, "form": form, **({"value": ([f2b(float(x)) for x in v] if form == "seq" else f2b(float(v)))} if form != "none" else {})})
+        real.append((kind, cp._as_form(v, container) if form == "seq" else v, what))
+    start = [float(x) for x in np.asarray(p0.slice_thicknesses, dtype=np.float64).reshape(-1)]
+    trace = ask(drv, {"op": "thick_history", "num_slices": S, "R0": r0, "R1": r1, "dr": f2b(samp_lib[0]), "dc": f2b(samp_lib[1]),
+                      "energy": f2b(cfg["energy"]), "thick": [f2b(x) for x in start], "ops": ops})
+    shown = []
+    for k, ((kind, val, what), m) in enumerate(zip(real, trace)):
+        if kind == "rebuild":
+            how = val
+            got = _exc_name({"compute_propagator_arrays": p0.compute_propagator_arrays, "reset_recon": p0.reset_recon,
+                             "preprocess": lambda: p0.preprocess(obj_padding_px=tuple(cfg["pad"]), plot_rotation=False, plot_com=False),
+                             "reconstruct0": lambda: p0.reconstruct(num_iters=0, constraints={})}[how])
+            shown.append(f"rebuild:{how}")
+        else:
+            tgt = p0 if kind == "ptycho" else p0.obj_model
+            got = _exc_name(lambda: setattr(tgt, "slice_thicknesses", val))
+            shown.append(f"{kind}:{what}")
+        hcase = {**case, "thickness_history": shown[:], "call": k}
+        ctx.count(3)
+        want = "ValueError" if m["raised"] else None
+        if got != want:
+            ctx.disagree("thickness-setter-raises", hcase, want, got, f"call {k} ({shown[-1]}): accepted / refused")
+        lib_t = np.asarray(p0.slice_thicknesses, dtype=np.float64).reshape(-1)
+        mod_t = np.array([b2f(x) for x in m["thick"]], dtype=np.float64)
+        if lib_t.shape != mod_t.shape or not np.array_equal(lib_t, mod_t):
+            ctx.disagree("thickness-setter-state", hcase, mod_t.tolist(), lib_t.tolist(), f"slice thicknesses held after call {k} ({shown[-1]})")
+        lib_p = p0.propagators.detach().numpy().astype(np.complex128)
+        mod_p = np.array([dec_img(x) for x in m["props"]]).reshape((-1, r0, r1)) if m["props"] else np.zeros((0,))
+        if lib_p.size == 0 and mod_p.size == 0:
+            continue
+        corr(ctx, "propagators-after-history", hcase, mod_p, lib_p.reshape(mod_p.shape) if lib_p.size == mod_p.size else lib_p, TOL32,
+             note=f"propagators after call {k} ({shown[-1]})")
+    # leave the object as the configuration says
+    if S > 1:
+        p0.slice_thicknesses = list(cfg["dz"])
+
+
+def targets_history_stream(ctx, drv, case, cfg, d, q, rng):
+    """which pattern stack the targets hold, as a state machine: a history of preprocess(settings) / a preprocess that raises /
+    reconstruct(num_iters=0, loss_type=...) (= `_set_targets`, incl. 'poisson' and unknown strings) / stack assignments (accepted
+    and refused) on ONE dataset; after every call the stack `dset.targets` equals (by content) vs the Lean model (exact)."""
+    reg = {}
+
+    def ident(t):
+        a = np.ascontiguousarray(t.detach().numpy() if hasattr(t, "detach") else np.asarray(t))
+        return reg.setdefault((a.shape, a.tobytes()), len(reg))
+
+    def stacks():
+        return {"centered_amplitudes": ident(d.centered_amplitudes), "amplitudes": ident(d.amplitudes),
+                "centered_intensities": ident(d.centered_intensities), "intensities": ident(d.intensities)}
+    n = d.num_gpts
+    r0, r1 = cfg["roi"]
+    st0, t0 = stacks(), ident(d.targets)
+    fit0 = bool(d.learn_descan and d.has_optimizer())
+    ops, obs, shown = [], [], []
+    bump = 0
+    for _ in range(rng.randint(5, 8)):
+        kind = rng.weighted([("preprocess", 3), ("preprocess_rejected", 2), ("set_targets", 5), ("assign_stack", 3)])
+        if kind == "preprocess":
+            fit = rng.choice(["plane", "constant", "none", "no_shift"])
+            bil = rng.chance(0.3)
+            got = _exc_name(lambda: cp.dataset_preprocess(d, cfg, com_fit_function=fit, bilinear=bil))
+            ops.append({"kind": "preprocess", "stacks": stacks()})
+            shown.append(f"preprocess({fit},bilinear={bil})")
+        elif kind == "preprocess_rejected":
+            got = _exc_name(lambda: cp.dataset_preprocess(d, cfg, com_fit_function=rng.choice(["bogus", "Plane"])))
+            ops.append({"kind": "preprocess_rejected"})
+            shown.append("preprocess(unknown fit)")
+        elif kind == "set_targets":
+            lt = rng.weighted([("l2_amplitude", 2), ("l1_amplitude", 2), ("l2_intensity", 2), ("l1_intensity", 2), ("poisson", 1),
+                               ("l2_bogus", 1), ("", 1), ("l3_amplitude", 1), ("Poisson", 1)])
+            got = _exc_name(lambda: q.reconstruct(num_iters=0, loss_type=lt, constraints={}))
+            fit_now = bool(d.learn_descan and d.has_optimizer())
+            if fit_now != fit0:
+                ops.append({"kind": "set_fit_descan", "value": fit_now})
+                obs.append((None, ident(d.targets)))      # placeholder for the extra model step (never raises)
+                shown.append("fit-descan-flag")
+                fit0 = fit_now
+            ops.append({"kind": "set_targets", "loss_type": lt})
+            shown.append(f"reconstruct(0,{lt!r})")
+        else:
+            name = rng.choice(["centered_amplitudes", "amplitudes", "centered_intensities", "intensities"])
+            ok = rng.chance(0.5)
+            bump += 1
+            arr = (getattr(d, name).detach().numpy() + np.float32(bump)) if ok else np.ones((n + 1, r0, r1), np.float32)
+            got = _exc_name(lambda: setattr(d, name, arr))
+            ops.append({"kind": "assign_stack", "name": name, "id": ident(getattr(d, name)) if ok else 0, "ok": ok})
+            shown.append(f"{name}={'array' if ok else 'wrong shape'}")
+        obs.append((got, ident(d.targets)))
+        ctx.dist[f"targets.{kind}"] += 1
+    trace = ask(drv, {"op": "targets_history", "stacks": st0, "targets": t0, "fit_descan": fit0 if not any(o["kind"] == "set_fit_descan" for o in ops) else bool(False), "ops": ops})
+    names = {}
+    for k, ((got, tid), m) in enumerate(zip(obs, trace)):
+        hcase = {**case, "targets_history": shown[:k + 1]}
+        ctx.count(2)
+        if got is not None or ops[k]["kind"] != "set_fit_descan":
+            want = "ValueError" if m["raised"] else None
+            if got != want:
+                ctx.disagree("targets-call-raises", hcase, want, got, f"call {k} ({shown[k]}): accepted / refused")
+        if tid != m["targets"]:
+            ctx.disagree("targets-source", hcase, f"stack id {m['targets']}", f"stack id {tid}",
+                         f"which pattern stack dset.targets holds after call {k} ({shown[k]}) (ids by content, in order of first appearance)")
+
+
+def index_history_stream(ctx, drv, case, cfg, p0, H, W, rng):
+    """scan-position setter + cached patch indices as a state machine: positions installed through the public
+    `dset.scan_positions_px` setter (exact k/8 values: ties x.5 of both parities, integers, generic, outside the object box,
+    negative; wrong shapes are refused) interleaved with `dset.forward`; after every forward pass the patch indices, the clipped
+    positions and the fractional parts vs the Lean model (exact)."""
+    ds = p0.dset
+    n = ds.num_gpts
+    r0, r1 = cfg["roi"]
+    pad = p0.obj_padding_px
+    start = ds.scan_positions_px.detach().numpy().astype(np.float64)
+    cur = start.copy()
+    ops, real, shown = [], [], []
+    for _ in range(rng.randint(4, 7)):
+        kind = rng.weighted([("assign", 4), ("assign_bad_shape", 2), ("forward", 4)])
+        if kind == "assign":
+            new = cur.copy()
+            for i in range(n):
+                for a, size in ((0, H), (1, W)):
+                    c = rng.weighted([("keep", 4), ("tie", 3), ("int", 2), ("eighth", 3), ("outside", 1), ("negative", 1)])
+                    if c == "tie":
+                        new[i, a] = rng.randint(0, size - 2) + 0.5
+                    elif c == "int":
+                        new[i, a] = float(rng.randint(0, size - 1))
+                    elif c == "eighth":
+                        new[i, a] = rng.randint(0, 8 * (size - 1)) / 8.0
+                    elif c == "outside":
+                        new[i, a] = size - 1 + rng.randint(1, 20) / 8.0
+                    elif c == "negative":
+                        new[i, a] = -rng.randint(1, 20) / 8.0
+            arr = new.astype(np.float32)
+            assert np.array_equal(arr.astype(np.float64), new)
+            ops.append({"kind": "assign", "positions": [[cp.frac_str(a), cp.frac_str(b)] for a, b in new.tolist()]})
+            real.append(("assign", rng.choice(["ndarray", "tensor"]), arr))
+            cur = new
+            shown.append("assign")
+        elif kind == "assign_bad_shape":
+            shape = rng.choice([(n + 1, 2), (n, 3), (n,), (max(n - 1, 1), 2)])
+            ops.append({"kind": "assign_bad_shape", "rows": shape[0]})
+            real.append(("assign", "ndarray", np.full(shape, 2.5, np.float32)))
+            shown.append(f"assign(shape {tuple(shape)})")
+        else:
+            ops.append({"kind": "forward"})
+            real.append(("forward", None, None))
+            cur = np.stack([np.clip(cur[:, 0], 0, H - 1), np.clip(cur[:, 1], 0, W - 1)], axis=1)
+            shown.append("forward")
+        ctx.dist[f"positions.history.{kind}"] += 1
+    if ops[-1]["kind"] != "forward":
+        ops.append({"kind": "forward"})
+        real.append(("forward", None, None))
+        shown.append("forward")
+    trace = ask(drv, {"op": "index_history", "positions": [[cp.frac_str(a), cp.frac_str(b)] for a, b in start.tolist()],
+                      "H": H, "W": W, "R0": r0, "R1": r1, "ops": ops})
+    import torch
+    for k, ((kind, form, arr), m) in enumerate(zip(real, trace)):
+        hcase = {**case, "position_history": shown[:k + 1]}
+        ctx.count()
+        if kind == "assign":
+            got = _exc_name(lambda: setattr(ds, "scan_positions_px", torch.tensor(arr) if form == "tensor" else arr))
+            want = "ValueError" if m["raised"] else None
+            if got != want:
+                ctx.disagree("scan-positions-setter-raises", hcase, want, got, f"call {k} ({shown[k]}): accepted / refused")
+            continue
+        with torch.no_grad():
+            idx, pos, frac, _descan = ds.forward(np.arange(n), pad)
+        ctx.count(3)
+        midx = np.array(m["idx"], dtype=np.int64)
+        lidx = idx.numpy().astype(np.int64)
+        if midx.shape != lidx.shape or not np.array_equal(midx, lidx):
+            bad = int(np.argmax((midx != lidx).reshape(n, -1).any(axis=1))) if midx.shape == lidx.shape else -1
+            ctx.disagree("patch-indices-after-history", hcase, {"position": bad, "idx": midx[bad].tolist() if bad >= 0 else list(midx.shape)},
+                         {"position": bad, "idx": lidx[bad].tolist() if bad >= 0 else list(lidx.shape)},
+                         f"patch indices returned by dset.forward at call {k} (cache of _last_patch_positions_px)")
+        mpos = np.array([[float(Fraction(a)), float(Fraction(b))] for a, b in m["pos"]])
+        mfrac = np.array([[float(Fraction(a)), float(Fraction(b))] for a, b in m["frac"]])
+        if not np.array_equal(mpos, pos.detach().numpy().astype(np.float64)):
+            ctx.disagree("positions-after-history", hcase, mpos.tolist(), pos.detach().numpy().tolist(), f"clipped positions at call {k}")
+        if not np.array_equal(mfrac, frac.detach().numpy().astype(np.float64)):
+            ctx.disagree("fractional-positions-after-history", hcase, mfrac.tolist(), frac.detach().numpy().tolist(), f"pos - round(pos) at call {k}")
+    ds.scan_positions_px = start.astype(np.float32)
 
 
 class DriverError(RuntimeError):
@@ -811,7 +1112,11 @@ def _pipeline_case(ctx, drv, case, light=False):
     # exception safety: rejected public calls inside a history must change nothing
     rejected_call_stream(ctx, case, cfg, pd, data, (phi, probe_lib), twin, mask, mean_I, pix, applicable, clipped, key, rng2)
     # re-preprocessing histories on one dataset object must equal a dataset preprocessed once
-    repreprocess_stream(ctx, case, cfg, pd, data, (phi, probe_lib), twin, mask, mean_I, pix, applicable, clipped, key, rng2)
+    d_re, q_re = repreprocess_stream(ctx, case, cfg, pd, data, (phi, probe_lib), twin, mask, mean_I, pix, applicable, clipped, key, rng2)
+    # state machines of Model/ForwardState.lean vs the real objects, call by call (rejected calls included)
+    targets_history_stream(ctx, drv, case, cfg, d_re, q_re, rng2)
+    thickness_history_stream(ctx, drv, case, cfg, p0, samp_lib, rng2)
+    index_history_stream(ctx, drv, case, cfg, p0, H, W, rng2)
     # perturbations: 3 of the object, 2 of the probe
     prng = np.random.default_rng(cfg["truth_seed"] % (2 ** 32))
     perts = []
@@ -846,6 +1151,58 @@ def _pipeline_case(ctx, drv, case, light=False):
     return ok_int
 
 
+# ----------------------------------------------------------------------------- pinned public signatures / defaults
+PINNED_DEFAULTS = {
+    "PtychographyDatasetRaster.preprocess": {"com_fit_function": "plane", "force_com_rotation": None, "force_com_transpose": None, "bilinear": False,
+                                             "padded_diffraction_intensities_shape": None, "obj_padding_px": (0, 0), "vectorized": True, "probe_energy": None},
+    "PtychographyDatasetRaster.from_dataset4dstem": {"detector_mask": None, "learn_descan": True, "learn_scan_positions": True},
+    "Ptychography.preprocess": {"obj_padding_px": (0, 0), "val_ratio": 0.0, "val_mode": "grid", "vectorized": True, "batch_size": None,
+                                "com_fit_function": "constant", "force_com_rotation": None, "force_com_transpose": None,
+                                "padded_diffraction_intensities_shape": None},
+    "Ptychography.reconstruct": {"num_iters": 0, "reset": False, "optimizer_params": None, "scheduler_params": None, "constraints": {},
+                                 "batch_size": None, "device": None, "autograd": True, "loss_type": "l2_amplitude"},
+    "Ptychography.error_estimate": {"loss_type": "l2_amplitude"},
+    "Ptychography.forward_operator": {"descan": None},
+    "ObjectPixelated.from_uniform": {"num_slices": 1, "slice_thicknesses": None, "obj_type": "complex"},
+    "ObjectPixelated.from_array": {"slice_thicknesses": None, "obj_type": "complex"},
+    "shift_array": {"bilinear": False},
+}
+
+
+def signature_stream(ctx):
+    """the public entry points the pipeline is driven through keep the parameter names and DEFAULTS the model assumes (new
+    optional parameters are fine: only the listed ones are pinned); the default dataset constraints (clip_scan_positions) too"""
+    import inspect
+    from quantem.diffractive_imaging.dataset_models import PtychographyDatasetRaster, DatasetConstraints
+    from quantem.diffractive_imaging.object_models import ObjectPixelated
+    from quantem.diffractive_imaging.ptychography import Ptychography
+    from quantem.diffractive_imaging.ptycho_utils import shift_array
+    objs = {"PtychographyDatasetRaster": PtychographyDatasetRaster, "Ptychography": Ptychography, "ObjectPixelated": ObjectPixelated}
+    for name, pins in PINNED_DEFAULTS.items():
+        fn = shift_array if name == "shift_array" else getattr(objs[name.split(".")[0]], name.split(".")[1])
+        try:
+            params = inspect.signature(fn).parameters
+        except (TypeError, ValueError) as e:   # noqa: PERF203
+            ctx.disagree("public-signature", {"stream": "signature", "function": name}, "inspectable", str(e), "signature")
+            continue
+        for k, dv in pins.items():
+            ctx.count()
+            if k not in params:
+                ctx.disagree("public-signature", {"stream": "signature", "function": name, "parameter": k}, "present", "missing", "parameter of a public entry point")
+                continue
+            got = params[k].default
+            same = (got is dv) or (type(got) is type(dv) and got == dv) or (isinstance(dv, tuple) and isinstance(got, (tuple, list)) and tuple(got) == dv)
+            if not same:
+                ctx.disagree("public-default", {"stream": "signature", "function": name, "parameter": k}, repr(dv), repr(got), "default value of a public entry point")
+    ctx.count(2)
+    dc = DatasetConstraints.DEFAULT_CONSTRAINTS
+    if dc.get("clip_scan_positions") is not True or dc.get("center_scan_positions") is not False:
+        ctx.disagree("public-default", {"stream": "signature", "function": "DatasetConstraints.DEFAULT_CONSTRAINTS"},
+                     {"clip_scan_positions": True, "center_scan_positions": False}, {k: dc.get(k) for k in ("clip_scan_positions", "center_scan_positions")},
+                     "default hard constraints executed by dset.forward")
+    ctx.mark(("signature", "pinned-defaults"))
+
+
 # ----------------------------------------------------------------------------- small exact streams
 def round_stream(ctx, drv):
     """round-half-even of the model vs numpy / torch on exact dyadic inputs incl. ties and negatives"""
@@ -877,6 +1234,7 @@ def run(ctx):
     drv = Driver("C02")
     try:
         round_stream(ctx, drv)
+        signature_stream(ctx)
         ncfg = min(ctx.n(16, 150), 48 if not ctx.thorough() else 200) if ctx.search_mode else ctx.n(16, 150)
         for i in range(ncfg):
             case = {"stream": "pipeline", "rseed": ctx.rng.next(), "index": i}
